@@ -243,7 +243,12 @@ func (ts *c11TokSrv) runCC(steps []c11CC) ([]c11Obs2, *c11Sha) {
 		}
 
 		o.Fresh, _ = ts.token(c, nil)
-		tab.sum(c.ID + c.Secret + c.URL + strings.Join(c.Scopes, ""))
+		ttl := "\x00" + c11LE64(0)
+		if c.TTL != nil {
+			ttl = "\x01" + c11LE64(*c.TTL)
+		}
+
+		tab.sum(c.ID + c.Secret + c.URL + strings.Join(c.Scopes, "") + ttl)
 		out = append(out, o)
 	}
 
@@ -1044,7 +1049,7 @@ func (j *c11Jwks) runJK(c *c11JKCase) (c11JKObs, *c11Sha) {
 			epre.WriteString(h.V)
 		}
 
-		tab.sum(tab.sum(epre.String()) + j.render(c.Proto, st.Tok.Iss) + st.Tok.Kid)
+		tab.sum(tab.sum(epre.String()) + j.render(c.Proto, st.Tok.Iss) + st.Tok.Kid + c11TTLHash(effs[st.Inst].TTL))
 		obs.Steps = append(obs.Steps, o)
 	}
 
